@@ -35,6 +35,12 @@ class _Meta(type):
     def __hash__(cls):
         return hash(cls.__sx_builtin__)
 
+    def __getattr__(cls, n):
+        # class-level attributes of the builtin (float.fromhex, int.from_bytes, ...) keep working
+        if n.startswith('__sx_'):
+            raise AttributeError(n)
+        return getattr(cls.__sx_builtin__, n)
+
 
 class sx_float(metaclass=_Meta):
     __sx_builtin__ = float
